@@ -18,32 +18,8 @@ import random
 import time
 import traceback
 
-import os
-import sys
-
-from pyvc import bounded as _registry
+from pyvc.bounded import bounded
 from spec import f65
-
-
-def bounded(name, props, replay=None):
-    """pyvc.bounded.bounded, plus: when the harness runs as `python -m pyvc.bounded` its registry lives in the
-    module object `__main__` (a second copy of pyvc/bounded.py), so the check is registered there as well."""
-    deco = _registry.bounded(name, props, replay)
-
-    def both(fn):
-        deco(fn)
-        main = sys.modules.get("__main__")
-        try:
-            same = (main is not None and main is not _registry and hasattr(main, "BOUNDED") and hasattr(main, "ORDER")
-                    and os.path.samefile(getattr(main, "__file__", ""), _registry.__file__))
-        except OSError:
-            same = False
-        if same and name not in main.BOUNDED:
-            main.BOUNDED[name] = {"name": name, "props": list(props), "fn": fn, "replay": replay}
-            main.ORDER.append(name)
-        return fn
-
-    return both
 
 TAU = 2.0 * math.pi
 
@@ -119,13 +95,52 @@ def _exc_fail(where, e, prop):
                 type(e).__name__, where, traceback.format_exc()[-400:])}
 
 
+def _with_alarm(seconds, fn):
+    """Run fn() with a wall-clock limit (SIGALRM); returns (finished, value)."""
+    import signal
+
+    class _Timeout(Exception):
+        pass
+
+    def handler(signum, frame):
+        raise _Timeout()
+
+    if not hasattr(signal, "SIGALRM"):
+        return True, fn()
+    old = signal.signal(signal.SIGALRM, handler)
+    signal.setitimer(signal.ITIMER_REAL, seconds)
+    try:
+        return True, fn()
+    except _Timeout:
+        return False, None
+    finally:
+        signal.setitimer(signal.ITIMER_REAL, 0)
+        signal.signal(signal.SIGALRM, old)
+
+
+def _zero_patterns(obj):
+    """Set of sign patterns of (rx, ry, r, w, h) of all dicts carrying radii / sizes in a case."""
+    out = set()
+    if isinstance(obj, dict):
+        if "rx" in obj or "r" in obj or "w" in obj:
+            out.add(tuple((obj.get(k) > 0) - (obj.get(k) < 0) for k in ("rx", "ry", "r", "w", "h") if k in obj)
+                    + tuple(sorted(k for k in ("rx", "r", "w") if k in obj)))
+        for v in obj.values():
+            out |= _zero_patterns(v)
+    elif isinstance(obj, list):
+        for v in obj:
+            out |= _zero_patterns(v)
+    return out
+
+
 class _Collector:
     """Keeps, per failure key, the first witness and a count; minimises the witnesses at the end."""
 
-    def __init__(self, mod, evaluate, shrink=None):
+    def __init__(self, mod, evaluate, shrink=None, normalise=None):
         self.mod = mod
         self.evaluate = evaluate
         self.shrink = shrink
+        self.normalise = normalise
         self.by_key = {}
         self.evaluations = 0
 
@@ -144,8 +159,13 @@ class _Collector:
         return fails
 
     def _still(self, case, key):
+        if not _zero_patterns(case) <= self._patterns:
+            return None  # the candidate left the family (a radius became zero / stopped being zero)
         try:
-            for f in self.evaluate(self.mod, case):
+            done, fails = _with_alarm(4.0, lambda: self.evaluate(self.mod, case))
+            if not done:  # a candidate that makes the library run for seconds is simply not accepted
+                return None
+            for f in fails:
                 if f["key"] == key:
                     return f
         except Exception:  # a candidate that breaks the *checker* is simply not accepted
@@ -156,6 +176,7 @@ class _Collector:
         for key in sorted(self.by_key):
             rec = self.by_key[key]
             case = rec["input"]
+            self._patterns = _zero_patterns(case)
             t0 = time.time()
             n = 0
             improved = True
@@ -172,6 +193,13 @@ class _Collector:
                             rec[kk] = f.get(kk)
                         improved = True
                         break
+            if self.normalise is not None:
+                try:
+                    norm = self.normalise(case)
+                    if norm is not None and self._still(norm, key) is not None:
+                        case = norm
+                except Exception:
+                    pass
             rec["input"] = case
 
     def failures(self):
@@ -213,12 +241,15 @@ def _complexity(x):
     return 6 + len(repr(float(x)))
 
 
+_PROTECTED = ("e", "limit_s", "n", "cap", "err")  # requested errors, limits and sample counts are never "simplified"
+
+
 def _candidates(case, shrink):
     if shrink is not None:
         for c in shrink(case):
             yield c
     for path, x in _leaves(case):
-        if path and path[0] in ("_fixed",):
+        if path and path[-1] in _PROTECTED:
             continue
         if isinstance(x, int):
             continue  # integers are flags / counts: only the structural shrinker touches them
@@ -1611,7 +1642,7 @@ def _desc_kind(d):
             circ = abs(c["rx"] - c["ry"]) <= 1e-12 * max(c["rx"], c["ry"])
         else:
             circ = d["rx"] == d["ry"]
-        return "Arc-circular" if circ else "Arc-elliptical"
+        return "Arc"
     return _KIND_CLASS[d["t"]]
 
 
@@ -1623,29 +1654,17 @@ def _map_desc(d, M):
     raise ValueError("only polynomial segments are mapped symbolically")
 
 
-def _with_alarm(seconds, fn):
-    """Run fn() with a wall-clock limit (SIGALRM); returns (finished, value)."""
-    import signal
-
-    class _Timeout(Exception):
-        pass
-
-    def handler(signum, frame):
-        raise _Timeout()
-
-    if not hasattr(signal, "SIGALRM"):
-        return True, fn()
-    old = signal.signal(signal.SIGALRM, handler)
-    signal.setitimer(signal.ITIMER_REAL, seconds)
-    try:
-        return True, fn()
-    except _Timeout:
-        return False, None
-    finally:
-        signal.setitimer(signal.ITIMER_REAL, 0)
-        signal.signal(signal.SIGALRM, old)
-
-
+_C15_NOTES = {
+    "CubicBezier": "(Without scipy the length is the recursive chord refinement PathSegment.segment_length: `error` is compared with the gain of "
+                   "ONE bisection step, not with the total, so the total error grows with the number of leaves, roughly like (length/error)^(1/3) "
+                   "* error: tens of times the requested error at length/error = 1e7, ~2000 times at 1e11.)",
+    "Arc": "(Without scipy a non-circular arc - or a circle whose |rx-ry| exceeds the absolute 1e-12 test after rounding - is measured by the "
+           "recursive chord refinement PathSegment.segment_length: `error` is compared with the gain of ONE bisection step, not with the total, "
+           "so the total error grows roughly like (length/error)^(1/3) * error.)",
+    "QuadraticBezier": "(The closed form divides by powers of |start - 2*control + end|; when the control point is (almost) the midpoint of the "
+                       "chord that quantity is rounding noise instead of 0 and the formula loses most digits; only the exact-zero case is "
+                       "caught by the ZeroDivisionError fallback. `error` is ignored.)",
+}
 _C15_SIMS = (("rotate37", _rot(37.0)), ("translate", [1.0, 0.0, 0.0, 1.0, 12.5, -3.25]),
              ("reflect", [1.0, 0.0, 0.0, -1.0, 0.0, 0.0]),
              ("rotate-reflect-translate", _compose(_compose(_rot(-112.0), [-1.0, 0.0, 0.0, 1.0, 0.0, 0.0]), [1.0, 0.0, 0.0, 1.0, -7.0, 2.0])))
@@ -1671,35 +1690,43 @@ def _c15_segment(mod, case):
                       "expected": "length(error=%g) == %r within 10*error + 1e-9*length = %g" % (e, true, _len_tol(e, true)),
                       "got": "%r (off by %g = %.3g x requested error, %.3g relative)" % (L, L - true, abs(L - true) / e, abs(L - true) / true if true else float("inf")),
                       "explanation": "the reported length differs from the arc length (Gauss-Legendre quadrature of the speed) by more "
-                                     "than the requested error"})
+                                     "than the requested error. " + _C15_NOTES.get(kind, "")})
     if _dist(p0, _seg_start(d)) > 1e-12 * S or _dist(p1, _seg_end(d)) > 1e-12 * S:
         fails.append({"key": "segment-point-endpoints:%s" % kind, "prop": "C15", "expected": "point(0)=%r point(1)=%r" % (_seg_start(d), _seg_end(d)),
                       "got": "%r %r" % (p0, p1), "explanation": "point(0) is the first and point(1) the last point"})
     if case.get("ops", True):
         try:
-            bad = []
-            for name, M in _C15_SIMS:
-                LM = float((seg * mod.Matrix(*M)).length(error=e))
-                if abs(LM - L) > 1e-9 * max(L, true) + 2 * 10.0 * e:
-                    bad.append("%s: %r vs %r" % (name, LM, L))
+            acc = []
+            inv = []
+            variants = [(name, mod.Matrix(*M), 1.0) for name, M in _C15_SIMS]
+            for sc in _C15_SCALES:
+                if S * abs(sc) / e <= case.get("cap", 1e7) * 10:
+                    variants.append(("scale %g" % sc, mod.Matrix(sc, 0.0, 0.0, sc, 0.0, 0.0), abs(sc)))
+            for name, M, k in variants:
+                LM = float((seg * M).length(error=e))
+                if abs(LM - k * true) > _len_tol(e, k * true):
+                    acc.append("%s: %r vs %r (off by %.3g x error, %.3g relative)" % (name, LM, k * true, abs(LM - k * true) / e,
+                                                                                      abs(LM - k * true) / (k * true) if true else float("inf")))
+                elif k == 1.0 and abs(LM - L) > 2e-9 * max(L, true) + 2 * 10.0 * e:
+                    inv.append("%s: %r vs %r" % (name, LM, L))
             r = seg * mod.Matrix()
             r.reverse()
             LR = float(r.length(error=e))
-            if abs(LR - L) > 1e-9 * max(L, true) + 2 * 10.0 * e:
-                bad.append("reverse: %r vs %r" % (LR, L))
-            if bad:
-                fails.append({"key": "length-invariance:%s" % kind, "prop": "C15", "expected": "length unchanged by rotation, translation, reflection, reversal (1e-9 relative + 20*error)",
-                              "got": "; ".join(bad), "explanation": "isometries and reversal must not change the length"})
-            bad = []
-            for s in _C15_SCALES:
-                if S * abs(s) / e > case.get("cap", 1e7) * 10:
-                    continue
-                Ls = float((seg * mod.Matrix(s, 0.0, 0.0, s, 0.0, 0.0)).length(error=e))
-                if abs(Ls - abs(s) * true) > _len_tol(e, abs(s) * true) and abs(L - true) <= _len_tol(e, true):
-                    bad.append("scale %g: %r vs |s|*length %r (off by %.3g x error)" % (s, Ls, abs(s) * true, abs(Ls - abs(s) * true) / e))
-            if bad:
-                fails.append({"key": "length-scaling:%s" % kind, "prop": "C15", "expected": "length scales by |s| under uniform scaling (within 10*error + 1e-9*length)",
-                              "got": "; ".join(bad), "explanation": "the unscaled length met the tolerance but the scaled one does not"})
+            if abs(LR - true) > _len_tol(e, true):
+                acc.append("reversed: %r vs %r" % (LR, true))
+            elif abs(LR - L) > 2e-9 * max(L, true) + 2 * 10.0 * e:
+                inv.append("reverse: %r vs %r" % (LR, L))
+            if acc and abs(L - true) <= _len_tol(e, true):
+                fails.append({"key": "length-accuracy:%s" % kind, "prop": "C15",
+                              "expected": "length(error=%g) of the rotated/translated/reflected/reversed copy == %r and of the copy scaled by s == |s| * "
+                                          "that, within 10*error + 1e-9*length" % (e, true),
+                              "got": "; ".join(acc),
+                              "explanation": "the segment itself met the tolerance but an isometric / uniformly scaled / reversed copy of it does "
+                                             "not: its reported length differs from the true arc length by more than the requested error. "
+                                             + _C15_NOTES.get(kind, "")})
+            if inv:
+                fails.append({"key": "length-invariance:%s" % kind, "prop": "C15", "expected": "length unchanged by rotation, translation, reflection, reversal (2e-9 relative + 20*error: twice the accuracy tolerance)",
+                              "got": "; ".join(inv), "explanation": "isometries and reversal must not change the length"})
         except Exception as ex:
             fails.append(_exc_fail("segment-length-transformed-%s" % kind, ex, "C15"))
     return fails
@@ -1805,11 +1832,11 @@ def _c15_path(mod, case):
             r = mod.Path(*[mod.copy(s) for s in segs]) if len(segs) != 1 else mod.Path(mod.copy(segs[0]))
             r.reverse()
             LR = float(r.length(error=e))
-            if abs(LR - L) > 1e-9 * max(L, total) + 2 * n_drawn * 10.0 * e:
+            if abs(LR - L) > 2e-9 * max(L, total) + 2 * n_drawn * 10.0 * e:
                 bad.append("reverse: %r vs %r" % (LR, L))
             for name, M in _C15_SIMS[:2] + _C15_SIMS[3:]:
                 LM = float(abs(x * mod.Matrix(*M)).length(error=e))
-                if abs(LM - L) > 1e-9 * max(L, total) + 2 * n_drawn * 10.0 * e:
+                if abs(LM - L) > 2e-9 * max(L, total) + 2 * n_drawn * 10.0 * e:
                     bad.append("%s: %r vs %r" % (name, LM, L))
             if bad:
                 fails.append({"key": "path-length-invariance", "prop": "C15", "expected": "unchanged length", "got": "; ".join(bad),
@@ -1828,6 +1855,10 @@ def _c15_probe(mod, case):
     except Exception as ex:
         return [_exc_fail("segment-length-default-error", ex, "C15")]
     if not done:
+        _OBSERVATIONS["default-error-length"] = (
+            "Arc(rx=%g, ry=%g, extent %g rad).length() with the default error 1e-12 did not return within %g s (about 2^20 chord "
+            "refinements; terminates eventually - a run-time observation, not counted as a violation of C15)" % (d["rx"], d["ry"], d["dth"], case["limit_s"]))
+        return []
         return [{"key": "length-default-error-runaway-recursion", "prop": "C15",
                  "expected": "length() returns (true length %r)" % _seg_length(d), "got": "no result after %g s" % case["limit_s"],
                  "explanation": "with the default error (1e-12) the chord-refinement criterion 'length2 - length > error' is below the float "
@@ -1979,6 +2010,7 @@ def _c15_cases(tier, rng):
            "_class": "default-error-probe"}
 
 
+_OBSERVATIONS = {}
 _c15_replay = _make_replay(_c15_eval)
 
 
@@ -2005,7 +2037,910 @@ def c15_length_and_point(mod, tier, seed):
              "run time), min_depth default. Per case: accuracy, point(0)/point(1), 4 isometries + reversal, 3 uniform scalings, path "
              "additivity, point(t) walk at fractions .25/.5/.8 of every non-negligible segment. Tolerance (stated): |length - true| <= "
              "10*error + 1e-9*true, true = adaptive 24-point Gauss-Legendre quadrature of the speed to 1e-13 relative; invariances "
-             "1e-9 relative + 20*error; walk tolerance = maxspeed * 2*(observed length discrepancy + 10*error per segment)/segment "
+             "2e-9 relative + 20*error (= twice the accuracy tolerance, so two accurate values can never fail it); walk tolerance = maxspeed * 2*(observed length discrepancy + 10*error per segment)/segment "
              "length + 1e-9*S. distinct = every case; classes %s" % (cap, sorted(classes.items())),
         bound="coordinates exactly 0 or 10^[-3,5]; up to 3 subpaths x 3 segments; one probe of the default error under a wall-clock limit",
+        distinct=col.evaluations, samples=samples, t0=t0, extra={"observations": dict(_OBSERVATIONS)})
+
+
+# =====================================================================================================================
+# (4) C16/reverse
+# =====================================================================================================================
+# case: {"subs": [{"move": bool, "segs": [descs of drawn segments], "close": "open"|"zclose"|"close", "start": [x,y]}],
+#        "hist": "whole" | "twice" | "sub" | "subtwice" | "transform", "i": subpath index (for sub*), "M": matrix}
+def _c16_structures(max_total, max_sub=3, max_per=5):
+    out = []
+
+    def rec(prefix, used):
+        if prefix:
+            out.append(list(prefix))
+        if len(prefix) == max_sub:
+            return
+        prev_closed = bool(prefix) and prefix[-1][2] != "open"
+        first = not prefix
+        for has_move in (True, False):
+            if not has_move and not (first or prev_closed):
+                continue
+            for m in range(0, min(max_per, max_total - used) + 1):
+                for close in ("open", "zclose", "close"):
+                    if close == "close" and m == 0:
+                        continue
+                    if not has_move and first and (close != "open" or m == 0):
+                        continue  # a closed fragment without any move has no defined close point
+                    if not has_move and m == 0 and close == "open":
+                        continue
+                    rec(prefix + [(has_move, m, close)], used + m)
+
+    rec([], 0)
+    return out
+
+
+def _c16_rand_pt(rng):
+    return [round(rng.uniform(-50, 50), 2), round(rng.uniform(-50, 50), 2)]
+
+
+def _c16_make(struct, kinds, rng):
+    """Concrete subpaths with random, pairwise distinct coordinates for a structure and a kind assignment."""
+    subs = []
+    zpoint = None
+    k = 0
+    for has_move, m, close in struct:
+        if has_move:
+            start = _c16_rand_pt(rng)
+            zpoint = start
+        elif zpoint is not None:
+            start = list(zpoint)  # directly after a close: the current point is the close point
+        else:
+            start = _c16_rand_pt(rng)  # a fragment without leading move
+        cur = start
+        segs = []
+        for j in range(m):
+            end = _c16_rand_pt(rng)
+            if j == m - 1 and close == "zclose":
+                end = list(start)
+            kind = kinds[k]
+            k += 1
+            if kind == "A" and end == cur:
+                # an endpoint-form arc with coincident endpoints draws nothing (C05); use a full-turn free closed curve instead
+                kind = "C"
+            d = _rand_seg(rng, kind, cur, 30.0, end=end)
+            if d["t"] == "E":
+                chord = _dist(cur, end)
+                d["rx"] = round(chord * rng.uniform(0.6, 3.0), 2) + 0.01
+                d["ry"] = round(chord * rng.uniform(0.6, 3.0), 2) + 0.01
+            elif d["t"] in ("Q", "C"):
+                d["p"] = [[round(p[0], 2), round(p[1], 2)] for p in d["p"]]
+                d["p"][0] = list(cur)
+                d["p"][-1] = list(end)
+            segs.append(d)
+            cur = end
+        subs.append({"move": has_move, "segs": segs, "close": close, "start": start})
+    return subs
+
+
+def _c16_dstring(subs):
+    parts = []
+    for sp in subs:
+        if sp["move"]:
+            parts.append("M %s,%s" % (_fmt(sp["start"][0]), _fmt(sp["start"][1])))
+        for d in sp["segs"]:
+            if d["t"] in ("L", "Q", "C"):
+                parts.append(d["t"] + " " + " ".join("%s,%s" % (_fmt(p[0]), _fmt(p[1])) for p in d["p"][1:]))
+            else:
+                parts.append("A %s %s %s %d %d %s,%s" % (_fmt(d["rx"]), _fmt(d["ry"]), _fmt(d["rot"]), d["fa"], d["fs"], _fmt(d["e"][0]), _fmt(d["e"][1])))
+        if sp["close"] != "open":
+            parts.append("Z")
+    return " ".join(parts)
+
+
+def _c16_build(mod, subs):
+    """Through the public API: path data for everything that starts with a move; a leading fragment without a move
+    is given as segment objects and the rest is appended as path data."""
+    if subs[0]["move"]:
+        return mod.Path(_c16_dstring(subs))
+    objs = [_build_seg(mod, d) for d in subs[0]["segs"]]
+    p = mod.Path(objs[0]) if len(objs) == 1 else mod.Path(*objs)
+    if len(subs) > 1:
+        p += _c16_dstring(subs[1:])
+    return p
+
+
+def _c16_trace(subs):
+    """Oracle model of a path: per subpath (start point, closed?, [(kind class, point fn)] incl. a non-degenerate
+    closing line)."""
+    out = []
+    for sp in subs:
+        pieces = []
+        cur = _xy(sp["start"])
+        for d in sp["segs"]:
+            pieces.append(("lin" if d["t"] == "L" else d["t"], _seg_fn(d)))
+            cur = _seg_end(d)
+        closed = sp["close"] != "open"
+        if closed and cur != _xy(sp["start"]):
+            a, b = cur, _xy(sp["start"])
+            pieces.append(("lin", (lambda a, b: (lambda t: (a[0] + (b[0] - a[0]) * t, a[1] + (b[1] - a[1]) * t)))(a, b)))
+        out.append({"start": _xy(sp["start"]), "closed": closed, "pieces": pieces, "has_move": sp["move"]})
+    return out
+
+
+def _rev_fn(f):
+    return lambda t: f(1.0 - t)
+
+
+def _c16_reverse_trace(tr):
+    """The statement's reversal of one subpath trace: pieces in reverse order, each reversed; same closedness."""
+    pieces = [(k, _rev_fn(f)) for k, f in reversed(tr["pieces"])]
+    if tr["closed"]:
+        start = tr["start"]  # any rotation of the loop is accepted by the comparison
+    else:
+        start = tr["pieces"][-1][1](1.0) if tr["pieces"] else tr["start"]
+    return {"start": start, "closed": tr["closed"], "pieces": pieces, "has_move": tr["has_move"]}
+
+
+def _c16_observe(mod, path):
+    """Model of the library's path: same shape as _c16_trace, from the segment objects (class, start, end, point())."""
+    subs = []
+    cur = None
+    for seg in path:
+        name = type(seg).__name__
+        if name == "Move":
+            if cur is not None:
+                subs.append(cur)
+            cur = {"start": _xy(seg.end), "closed": False, "pieces": [], "has_move": True, "raw": [seg], "conn": []}
+            continue
+        if cur is None:
+            cur = {"start": _xy(seg.start) if seg.start is not None else None, "closed": False, "pieces": [], "has_move": False, "raw": [], "conn": []}
+        cur["raw"].append(seg)
+        s0 = _xy(seg.start) if seg.start is not None else None
+        e0 = _xy(seg.end) if seg.end is not None else None
+        cur["conn"].append((name, s0, e0))
+        if name == "Close":
+            cur["closed"] = True
+            cur["close_end"] = e0
+            if s0 != e0:
+                cur["pieces"].append(("lin", _c16_samples(seg, s0, e0)))
+            subs.append(cur)
+            cur = None
+        else:
+            kind = {"Line": "lin", "QuadraticBezier": "Q", "CubicBezier": "C", "Arc": "E"}[name]
+            cur["pieces"].append((kind, _c16_samples(seg, s0, e0)))
+    if cur is not None:
+        subs.append(cur)
+    return subs
+
+
+_C16_T = (0.0, 0.2, 0.5, 0.85, 1.0)
+
+
+def _c16_samples(seg, s0, e0):
+    """Sampled points of a library segment (evaluated eagerly); None when the segment has lost an endpoint."""
+    if s0 is None or e0 is None:
+        return None
+    table = {t: _xy(seg.point(t)) for t in _C16_T}
+    return lambda t: table[t]
+
+
+def _pieces_match(got, want, tol):
+    if len(got) != len(want):
+        return "piece count %d != %d" % (len(got), len(want))
+    for i, ((gk, gf), (wk, wf)) in enumerate(zip(got, want)):
+        if gf is None:
+            return "piece %d (%s) has lost an endpoint (start or end is None)" % (i, gk)
+        if gk != wk:
+            return "piece %d is %s, expected %s" % (i, gk, wk)
+        for t in _C16_T:
+            g = gf(t)
+            w = wf(t)
+            if _dist(g, w) > tol:
+                return "piece %d (%s) at t=%g is %r, expected %r" % (i, gk, t, g, w)
+    return None
+
+
+def _sub_matches(obs, want, tol):
+    """Does the observed subpath trace the wanted one? Closed loops are compared up to rotation of the piece list."""
+    if obs["closed"] != want["closed"]:
+        return "closed=%r, expected closed=%r" % (obs["closed"], want["closed"])
+    if not want["closed"]:
+        if want["pieces"] or obs["pieces"]:
+            why = _pieces_match(obs["pieces"], want["pieces"], tol)
+            if why:
+                return why
+        if obs["start"] is None or _dist(obs["start"], want["start"]) > tol:
+            return "starts at %r, expected %r" % (obs["start"], want["start"])
+        return None
+    n = len(want["pieces"])
+    if len(obs["pieces"]) != n:
+        return "closed loop has %d non-degenerate pieces, expected %d" % (len(obs["pieces"]), n)
+    if n == 0:
+        if obs["start"] is None or _dist(obs["start"], want["start"]) > tol:
+            return "degenerate closed subpath at %r, expected %r" % (obs["start"], want["start"])
+        return None
+    whys = []
+    for r in range(n):
+        why = _pieces_match(obs["pieces"], want["pieces"][r:] + want["pieces"][:r], tol)
+        if why is None:
+            return None
+        whys.append(why)
+    whys.sort(key=lambda w: (w.startswith("piece") and " is " in w and "expected" in w and "at t=" not in w, w))
+    return "no rotation of the reversed loop matches (closest: %s)" % whys[0]
+
+
+def _connectivity(obs, tol):
+    """A connected path: inside each subpath every segment starts where the previous one ended, the move points at the
+    first segment's start, and a close returns to the subpath's start."""
+    for si, sp in enumerate(obs):
+        prev = sp["start"] if sp["has_move"] else None
+        for name, s0, e0 in sp["conn"]:
+            if s0 is None or e0 is None:
+                return "subpath %d: %s has a missing endpoint (start=%r end=%r)" % (si, name, s0, e0)
+            if prev is not None and _dist(prev, s0) > tol:
+                return "subpath %d: %s starts at %r but the previous point is %r" % (si, name, s0, prev)
+            prev = e0
+        if sp["closed"]:
+            first = sp["start"] if sp["start"] is not None else None
+            if first is not None and _dist(sp["close_end"], first) > tol:
+                return "subpath %d: close ends at %r, the subpath starts at %r" % (si, sp["close_end"], first)
+    return None
+
+
+def _trace_identical(obs, want, tol):
+    """Same subpath, same direction, same start (used for 'restores the original' and 'other subpaths untouched')."""
+    if obs["closed"] != want["closed"]:
+        return "closed=%r, expected %r" % (obs["closed"], want["closed"])
+    why = _pieces_match(obs["pieces"], want["pieces"], tol)
+    if why:
+        return why
+    if obs["start"] is None or _dist(obs["start"], want["start"]) > tol:
+        return "starts at %r, expected %r" % (obs["start"], want["start"])
+    return None
+
+
+def _map_trace(tr, M):
+    return {"start": _apply(M, tr["start"]), "closed": tr["closed"], "has_move": tr["has_move"],
+            "pieces": [(k, (lambda f: (lambda t: _apply(M, f(t))))(f)) for k, f in tr["pieces"]]}
+
+
+def _c16_class(subs, i=None):
+    """Defect-class suffix from the structure of the (affected) subpath(s)."""
+    tags = set()
+    rng_ = range(len(subs)) if i is None else (i,)
+    for k in rng_:
+        sp = subs[k]
+        if not sp["move"] and sp["segs"]:
+            tags.add("moveless-subpath" if k > 0 else "leading-fragment")
+        if not sp["move"] and not sp["segs"]:
+            tags.add("moveless-bare-close")  # a bare 'Z' directly after a close ("M0,0 L1,1 Z Z")
+    for t in ("leading-fragment", "moveless-subpath", "moveless-bare-close"):
+        if t in tags:
+            return t
+    return "plain"
+
+
+def _c16_canon(subs):
+    """Re-chain a (possibly mutated) case so that it is a valid path again: every segment starts where the previous one
+    ended, a subpath without its own move starts at the close point in force, the close label follows the geometry.
+    Returns None when that is impossible (e.g. an arc whose endpoints coincide)."""
+    out = []
+    z = None
+    for k, sp in enumerate(subs):
+        sp = dict(sp)
+        if sp["move"]:
+            z = list(sp["start"])
+        elif k > 0:
+            if z is None or out[-1]["close"] == "open":
+                return None
+            sp["start"] = list(z)
+        else:
+            if sp["close"] != "open" or not sp["segs"]:
+                return None
+        cur = list(sp["start"])
+        segs = []
+        for d in sp["segs"]:
+            d = dict(d)
+            if d["t"] == "E":
+                d["s"] = list(cur)
+                if d["s"] == list(d["e"]) or d["rx"] <= 0 or d["ry"] <= 0:
+                    return None
+                cur = list(d["e"])
+            else:
+                d["p"] = [list(cur)] + [list(x) for x in d["p"][1:]]
+                if all(list(x) == d["p"][0] for x in d["p"]):
+                    return None  # a segment degenerated to a point is outside the family
+                cur = list(d["p"][-1])
+            segs.append(d)
+        sp["segs"] = segs
+        if sp["close"] != "open":
+            sp["close"] = "zclose" if cur == list(sp["start"]) else "close"
+        out.append(sp)
+    return out
+
+
+def _c16_single_ok(mod, p, want, hist, i, tol):
+    """Is the single reversal (whole path or subpath i) right? Used so that 'twice' only reports its own defect."""
+    q = mod.copy(p)
+    if hist == "twice":
+        q.reverse()
+        got = _c16_observe(mod, q)
+        exp = [_c16_reverse_trace(t) for t in reversed(want)]
+        return len(got) == len(exp) and all(_sub_matches(o, w, tol) is None for o, w in zip(got, exp)) and _connectivity(got, tol) is None
+    q.subpath(i).reverse()
+    got = _c16_observe(mod, q)
+    if len(got) != len(want):
+        return False
+    for k, (o, w) in enumerate(zip(got, want)):
+        if (_sub_matches(o, _c16_reverse_trace(w), tol) if k == i else _trace_identical(o, w, tol)) is not None:
+            return False
+    return _connectivity(got, tol) is None
+
+
+def _c16_eval(mod, case):
+    subs = _c16_canon(case["subs"])
+    if subs is None:
+        return []
+    hist = case["hist"]
+    want = _c16_trace(subs)
+    tol = 1e-9 * 100.0
+    fails = []
+
+    text = _c16_dstring(subs) if subs[0]["move"] else "Path(%s) + %r" % (", ".join("%s%r" % (d["t"], d.get("p", d)) for d in subs[0]["segs"]), _c16_dstring(subs[1:]))
+
+    def fail(key, expected, got, expl):
+        fails.append({"key": key, "prop": "C16", "expected": expected, "got": "path %s, history %s%s: %s" % (
+            text, hist, "" if case.get("i") is None else " i=%d" % case["i"], got), "explanation": expl})
+
+    try:
+        p = _c16_build(mod, subs)
+        base = _c16_observe(mod, p)
+    except Exception as ex:
+        return [_exc_fail("path-construction", ex, "C16")]
+    # sanity of the construction itself (not a property of reverse): the library must see the intended path
+    if len(base) != len(want) or any(_trace_identical(o, w, tol) for o, w in zip(base, want)):
+        return [{"key": "construction-differs-from-model", "prop": "C16", "expected": "%d subpaths as modelled" % len(want),
+                 "got": "%d subpaths: %s" % (len(base), [(_trace_identical(o, w, tol)) for o, w in zip(base, want)]),
+                 "explanation": "the path built through the public API is not the modelled path (checker or parser problem, not reverse)"}]
+    cls = _c16_class(subs, case.get("i") if hist in ("sub", "subtwice") else None)
+    try:
+        if hist in ("twice", "subtwice") and not _c16_single_ok(mod, p, want, hist, case.get("i"), tol):
+            return []  # the single reversal is already wrong: reported by the 'whole' / 'sub' history of the same path
+        if hist in ("whole", "twice"):
+            q = mod.copy(p)
+            q.reverse()
+            if hist == "twice":
+                q.reverse()
+        elif hist in ("sub", "subtwice"):
+            q = mod.copy(p)
+            q.subpath(case["i"]).reverse()
+            if hist == "subtwice":
+                q.subpath(case["i"]).reverse()
+        else:
+            M = case["M"]
+            q = abs(mod.copy(p) * mod.Matrix(*M))
+            q.reverse()
+            q2 = mod.copy(p)
+            q2.reverse()
+            q2 = abs(q2 * mod.Matrix(*M))
+        got = _c16_observe(mod, q)
+        got2 = _c16_observe(mod, q2) if hist == "transform" else None
+    except Exception as ex:
+        f = _exc_fail("reverse-%s[%s]" % ("subpath" if hist.startswith("sub") else "path", cls), ex, "C16")
+        return [f]
+    where = "Subpath.reverse" if hist.startswith("sub") else "Path.reverse"
+    if hist in ("whole", "transform"):
+        exp = [_c16_reverse_trace(t) for t in reversed(want)]
+        if hist == "transform":
+            exp = [_map_trace(t, case["M"]) for t in exp]
+            tol = tol * max(1.0, math.sqrt(sum(v * v for v in case["M"][:4]))) + 1e-9 * (abs(case["M"][4]) + abs(case["M"][5]))
+        for name, g in (("reverse", got),) + ((("reverse-then-transform", got2),) if got2 is not None else ()):
+            why = None
+            if len(g) != len(exp):
+                why = "%d subpaths, expected %d" % (len(g), len(exp))
+            else:
+                for k, (o, w) in enumerate(zip(g, exp)):
+                    why = _sub_matches(o, w, tol)
+                    if why:
+                        why = "result subpath %d (reversal of original subpath %d): %s" % (k, len(exp) - 1 - k, why)
+                        break
+            if why:
+                fail("path-reverse-wrong-geometry[%s]" % cls, "subpaths in reverse order, each the reversal of the original", "%s: %s; result %r" % (name, why, q if name == "reverse" else q2),
+                     "%s does not trace the same geometry in the opposite direction (a point is lost, a segment is not its own "
+                     "reversal, or closedness changed)" % where)
+                break
+            why = _connectivity(g, tol)
+            if why:
+                fail("path-reverse-disconnected[%s]" % cls, "connected path", "%s: %s; result %r" % (name, why, q if name == "reverse" else q2),
+                     "the reversed path is not connected")
+                break
+    elif hist in ("twice", "subtwice"):
+        why = None
+        if len(got) != len(want):
+            why = "%d subpaths, expected %d" % (len(got), len(want))
+        else:
+            for k, (o, w) in enumerate(zip(got, want)):
+                why = _trace_identical(o, w, tol)
+                if why:
+                    why = "subpath %d: %s" % (k, why)
+                    break
+        if why is None:
+            why = _connectivity(got, tol)
+        if why:
+            fail("%s-twice-not-identity[%s]" % ("subpath-reverse" if hist == "subtwice" else "path-reverse", cls), "the original path", "%s; result %r" % (why, q),
+                 "reversing twice must restore the original path")
+    else:
+        i = case["i"]
+        why = None
+        if len(got) != len(want):
+            why = ("other", "%d subpaths, expected %d" % (len(got), len(want)))
+        else:
+            for k, (o, w) in enumerate(zip(got, want)):
+                if k == i:
+                    y = _sub_matches(o, _c16_reverse_trace(w), tol)
+                    if y:
+                        why = ("self", "subpath %d is not the reversal of the original: %s" % (k, y))
+                        break
+                else:
+                    y = _trace_identical(o, w, tol)
+                    if y:
+                        why = ("other", "subpath %d was changed although subpath %d was reversed: %s" % (k, i, y))
+                        break
+        if why is None:
+            y = _connectivity(got, tol)
+            if y:
+                why = ("conn", y)
+        if why:
+            key = {"self": "subpath-reverse-wrong-geometry", "other": "subpath-reverse-changes-other-subpath", "conn": "subpath-reverse-disconnected"}[why[0]]
+            fail("%s[%s]" % (key, cls), "only subpath %d changes, into its reversal; the path stays connected" % i, "%s; result %r" % (why[1], q),
+                 "reversing a subpath view must change only that subpath of the backing path, into its own reversal")
+    return fails
+
+
+def _c16_shrink(case):
+    subs = case["subs"]
+    i = case.get("i")
+    # drop a whole subpath (keeping the structure valid)
+    for k in range(len(subs)):
+        if len(subs) == 1 or k == i:
+            continue
+        rest = subs[:k] + subs[k + 1:]
+        ok = True
+        for j, sp in enumerate(rest):
+            if not sp["move"] and j > 0 and rest[j - 1]["close"] == "open":
+                ok = False
+            if not sp["move"] and j == 0 and (sp["close"] != "open" or not sp["segs"]):
+                ok = False
+            if not sp["move"] and j > 0:
+                # its start must still be the close point in force
+                z = None
+                for b in rest[:j]:
+                    if b["move"]:
+                        z = b["start"]
+                if z is None or list(z) != list(sp["start"]):
+                    ok = False
+        if ok:
+            c = dict(case)
+            c["subs"] = rest
+            if i is not None:
+                c["i"] = i - 1 if k < i else i
+            yield c
+    # drop one drawn segment inside a subpath (reconnecting the next one / the close)
+    for k, sp in enumerate(subs):
+        segs = sp["segs"]
+        for j in range(len(segs)):
+            if len(segs) == 1 and (sp["close"] == "close" or not sp["move"]):
+                continue
+            new = [dict(d) for d in segs[:j] + segs[j + 1:]]
+            cur = list(sp["start"])
+            okk = True
+            for d in new:
+                if d["t"] == "E":
+                    d["s"] = list(cur)
+                    if d["s"] == d["e"]:
+                        okk = False
+                    cur = list(d["e"])
+                else:
+                    d["p"] = [list(cur)] + [list(x) for x in d["p"][1:]]
+                    cur = list(d["p"][-1])
+            if not okk:
+                continue
+            if sp["close"] == "zclose" and new and cur != list(sp["start"]):
+                if new[-1]["t"] == "E":
+                    continue
+                new[-1]["p"][-1] = list(sp["start"])
+            if sp["close"] == "close" and cur == list(sp["start"]):
+                continue
+            c = dict(case)
+            c["subs"] = subs[:k] + [dict(sp, segs=new)] + subs[k + 1:]
+            yield c
+    # simpler kinds
+    for k, sp in enumerate(subs):
+        for j, d in enumerate(sp["segs"]):
+            if d["t"] != "L":
+                c = dict(case)
+                nd = {"t": "L", "p": [list(_seg_start(d)), list(_seg_end(d))]}
+                c["subs"] = subs[:k] + [dict(sp, segs=sp["segs"][:j] + [nd] + sp["segs"][j + 1:])] + subs[k + 1:]
+                yield c
+    if case["hist"] == "transform":
+        c = dict(case)
+        c["hist"] = "whole"
+        c.pop("M", None)
+        yield c
+
+
+def _c16_cases(tier, rng):
+    q = tier == "quick"
+    max_total = 5 if q else 6
+    exhaustive_kinds_upto = 2 if q else 3
+    per_struct = 1 if q else 3
+    ms = _matrices40()
+    import itertools
+    n = 0
+    for struct in _c16_structures(max_total):
+        total = sum(s[1] for s in struct)
+        if total <= exhaustive_kinds_upto:
+            assignments = list(itertools.product("LQCA", repeat=total))
+        else:
+            assignments = [tuple(rng.choice("LQCA") for _ in range(total)) for _ in range(per_struct)]
+        for kinds in assignments:
+            subs = _c16_make(struct, kinds, rng)
+            n += 1
+            yield {"subs": subs, "hist": "whole"}
+            yield {"subs": subs, "hist": "twice"}
+            i = n % len(subs)
+            idxs = range(len(subs)) if (not q or total > exhaustive_kinds_upto) else (i,)
+            for i in idxs:
+                yield {"subs": subs, "hist": "sub", "i": i}
+                yield {"subs": subs, "hist": "subtwice", "i": i}
+            if n % 4 == 0:
+                yield {"subs": subs, "hist": "transform", "M": ms[n % 40]}
+
+
+_c16_replay = _make_replay(_c16_eval)
+
+
+@bounded("C16/reverse", props=["C16"], replay=_c16_replay)
+def c16_reverse(mod, tier, seed):
+    t0 = time.time()
+    rng = random.Random(seed)
+    col = _Collector(mod, _c16_eval, _c16_shrink,
+                     normalise=lambda c: (lambda cs: None if cs is None else dict(c, subs=cs))(_c16_canon(c["subs"])))
+    structs = set()
+    samples = []
+    for case in _c16_cases(tier, rng):
+        col.run_case(case)
+        structs.add((tuple((s["move"], tuple(d["t"] for d in s["segs"]), s["close"]) for s in case["subs"]), case["hist"], case.get("i")))
+        if len(samples) < 6 and col.evaluations % 997 == 1:
+            samples.append(case)
+    q = tier == "quick"
+    return _finish(
+        col, tier,
+        rule="ALL valid path structures with <=3 subpaths, <=5 drawn segments per subpath and <=%d drawn segments in total, where a "
+             "subpath = (own move or none [allowed first = fragment, or directly after a close], 0..5 drawn segments, open | closed by a "
+             "zero-length close | closed by a non-zero close), including move-only subpaths, 'M Z' and a bare 'Z' after a close; segment "
+             "kinds from {Line, Quadratic, Cubic, Arc}: exhaustive for totals <= %d, otherwise %d pseudo-random assignment(s) per "
+             "structure; coordinates random with 2 decimals in [-50,50] (pairwise distinct except where a zero-length close requires "
+             "equality). Histories: reverse the whole path; twice; p.subpath(i).reverse() (every i for the larger structures); twice; "
+             "transform-then-reverse vs reverse-then-transform under one of 40 matrices (every 4th path). Oracle: own model of the "
+             "trace (pieces as point functions, q(t) = p(1-t), subpaths reversed in order, closed loops compared up to rotation, Close and "
+             "Line interchangeable for the closing edge), pointwise at t in %r to 1e-7, connectivity by endpoint equality. distinct = "
+             "distinct (structure with kinds, history, index); all are non-trivial except the 20 structures without drawn segments"
+             % (5 if q else 6, 2 if q else 3, 1 if q else 3, _C16_T),
+        bound="<=3 subpaths, <=5 segments per subpath, total <= %d; paths built through Path(d-string) (fragments through segment objects)" % (5 if q else 6),
+        distinct=len(structs), samples=samples, t0=t0)
+
+
+# =====================================================================================================================
+# (5) C19/arc_to_bezier
+# =====================================================================================================================
+_C19_BOUND = {"cubic": 1e-3, "quad": 1e-2}
+_C19_TS = tuple(i / 16.0 for i in range(17))
+
+
+def _arc_ellipse(d):
+    """(cx, cy, rx, ry, phi_rad, theta1, dtheta) of an arc description, from the oracle."""
+    if d["t"] == "A":
+        cp, sp = _phi_exact(d["phi"])
+        return (d["c"][0], d["c"][1], abs(d["rx"]), abs(d["ry"]), math.atan2(sp, cp), d["th"], d["dth"])
+    c = f65.endpoint_to_center(d["s"][0], d["s"][1], d["rx"], d["ry"], d["rot"], d["fa"], d["fs"], d["e"][0], d["e"][1])
+    if c["kind"] != "arc":
+        return None
+    return (c["cx"], c["cy"], c["rx"], c["ry"], c["phi"], c["theta1"], c["dtheta"])
+
+
+def _chain_report(mod, curves, d, mode, start, end):
+    """Structural problems of a chain of curves replacing arc d, and its largest relative deviation from the ellipse."""
+    want_cls = "CubicBezier" if mode == "cubic" else "QuadraticBezier"
+    el = _arc_ellipse(d)
+    problems = []
+    if not curves:
+        return ["no curves for an arc of extent %g" % el[6]], None, None
+    for k, c in enumerate(curves):
+        if type(c).__name__ != want_cls:
+            problems.append("curve %d is a %s" % (k, type(c).__name__))
+    if _xy(curves[0].start) != start:
+        problems.append("chain starts at %r, the arc starts at %r" % (_xy(curves[0].start), start))
+    if _xy(curves[-1].end) != end:
+        problems.append("chain ends at %r, the arc ends at %r" % (_xy(curves[-1].end), end))
+    for k in range(len(curves) - 1):
+        if _xy(curves[k].end) != _xy(curves[k + 1].start):
+            problems.append("curves %d and %d do not join: %r vs %r" % (k, k + 1, _xy(curves[k].end), _xy(curves[k + 1].start)))
+            break
+    R = max(el[2], el[3])
+    dev = 0.0
+    mid = 0.0
+    n = len(curves)
+    for k, c in enumerate(curves):
+        for t in _C19_TS:
+            p = _xy(c.point(t))
+            dv = min(f65.ellipse_normal_deviation(el[0], el[1], el[2], el[3], el[4], p[0], p[1]),
+                     f65.ellipse_radial_deviation(el[0], el[1], el[2], el[3], el[4], p[0], p[1])) / R
+            dev = max(dev, dv)
+        m = _xy(c.point(0.5))
+        w = f65.ellipse_point(el[0], el[1], el[2], el[3], el[4], el[5] + el[6] * (k + 0.5) / n)
+        mid = max(mid, _dist(m, w) / R)
+    return problems, dev, mid
+
+
+def _c19_floor(d):
+    """Float noise floor of a relative deviation: a few ulps of the largest coordinate, relative to the larger radius."""
+    el = _arc_ellipse(d)
+    big = abs(el[0]) + abs(el[1]) + 2 * max(el[2], el[3])
+    return 1e-12 + 16 * 2.3e-16 * big / max(el[2], el[3])
+
+
+def _c19_arc(mod, case):
+    d = case["seg"]
+    mode = case["mode"]
+    fails = []
+    el = _arc_ellipse(d)
+    try:
+        arc = _build_seg(mod, d)
+        conv = (lambda n=None: list(arc.as_cubic_curves(n) if mode == "cubic" else arc.as_quad_curves(n)))
+        default = conv()
+    except Exception as ex:
+        return [_exc_fail("arc-as-%s-curves" % mode, ex, "C19")]
+    start = _seg_start(d)
+    end = _seg_end(d)
+    if el is None or el[6] == 0:
+        if default:
+            fails.append({"key": "zero-extent-arc-yields-curves", "prop": "C19", "expected": "no curves", "got": "%d curves" % len(default),
+                          "explanation": "an arc of zero extent yields no curves"})
+        return fails
+    n0 = len(default)
+    try:
+        chains = [("default", default)] + [("n=%d" % (k * n0), conv(k * n0)) for k in (1, 2, 4)] if n0 else [("default", default)]
+        reports = [(name, len(ch)) + tuple(_chain_report(mod, ch, d, mode, start, end)) for name, ch in chains]
+    except Exception as ex:
+        return [_exc_fail("arc-as-%s-curves" % mode, ex, "C19")]
+    bound = _C19_BOUND[mode]
+    for name, cnt, problems, dev, mid in reports:
+        if problems:
+            fails.append({"key": "%s-chain-not-connected-to-arc" % mode, "prop": "C19", "expected": "chain from arc.start to arc.end, exact joins",
+                          "got": "%s: %s" % (name, "; ".join(problems)), "explanation": "the curves must form a connected chain that starts and ends exactly at the arc's endpoints"})
+            return fails
+    name, cnt, _, dev, mid = reports[0]
+    if dev > bound:
+        fails.append({"key": "%s-deviation-above-bound" % mode, "prop": "C19", "expected": "deviation <= %g of the larger radius at the default subdivision" % bound,
+                      "got": "%g with %d curves for an extent of %g rad (radii %g, %g)" % (dev, cnt, el[6], el[2], el[3]),
+                      "explanation": "points of the curves stray from the arc's ellipse by more than the stated bound"})
+    if mid > 5 * bound:
+        fails.append({"key": "%s-chain-off-the-arc" % mode, "prop": "C19", "expected": "curve k covers the k-th slice of the arc (midpoints within %g of the larger radius)" % (5 * bound),
+                      "got": "midpoint mismatch %g with %d curves, extent %g" % (mid, cnt, el[6]),
+                      "explanation": "the chain lies on the ellipse but does not follow the arc (wrong direction or extent)"})
+    for (na, ca, _, da, _), (nb, cb, _, db, _) in zip(reports[1:], reports[2:]):
+        if cb != 2 * ca:
+            fails.append({"key": "%s-curve-count" % mode, "prop": "C19", "expected": "%d curves" % (2 * ca), "got": "%d" % cb, "explanation": "explicit count not honoured"})
+        elif db > da * (1 + 1e-6) + _c19_floor(d):
+            fails.append({"key": "%s-deviation-grows-with-finer-subdivision" % mode, "prop": "C19", "expected": "deviation(%s) <= deviation(%s) = %g" % (nb, na, da),
+                          "got": "%g" % db, "explanation": "the deviation must shrink (not grow) as a finer subdivision is requested"})
+    return fails
+
+
+def _seg_signature(seg):
+    return (type(seg).__name__,) + tuple(_xy(p) for p in seg if p is not None)
+
+
+def _c19_path(mod, case):
+    segs = case["segs"]
+    mode = case["mode"]
+    fails = []
+    devs = []
+    for err in case["errs"]:
+        try:
+            p = _build_path(mod, segs)
+            before = [_seg_signature(s) for s in p]
+            if err is None:
+                (p.approximate_arcs_with_cubics if mode == "cubic" else p.approximate_arcs_with_quads)()
+            else:
+                (p.approximate_arcs_with_cubics if mode == "cubic" else p.approximate_arcs_with_quads)(err)
+            after = list(p)
+        except Exception as ex:
+            return [_exc_fail("path-approximate-arcs-with-%ss" % mode, ex, "C19")]
+        pos = 0
+        worst = 0.0
+        for i, d in enumerate(segs):
+            if d["t"] in ("A", "E"):
+                el = _arc_ellipse(d)
+                start = _seg_start(d)
+                end = _seg_end(d)
+                if el is None or el[6] == 0:
+                    kind = _culprit(d) if d["t"] == "E" else "zero-extent"
+                    if kind == "zero-radius-arc":
+                        # SVG: a zero radius arc is the straight line; the conversion must not delete it
+                        nxt = after[pos] if pos < len(after) else None
+                        if nxt is None or _xy(nxt.start) != start or _xy(nxt.end) != end:
+                            fails.append({"key": "zero-radius-arc-dropped-by-conversion", "prop": "C19", "expected": "the straight line %r -> %r stays in the path" % (start, end),
+                                          "got": "next segment %r; result %r" % (nxt, p), "explanation": "an arc with a zero radius is a straight line (SVG F.6.2), not an arc of zero extent; "
+                                                                                                        "the conversion removed it and re-linked the neighbours"})
+                            return fails
+                        pos += 1
+                    continue
+                chain = []
+                want_cls = "CubicBezier" if mode == "cubic" else "QuadraticBezier"
+                while pos < len(after) and type(after[pos]).__name__ == want_cls and (not chain or _xy(chain[-1].end) != end or (start == end and len(chain) < 3)):
+                    chain.append(after[pos])
+                    pos += 1
+                problems, dev, mid = _chain_report(mod, chain, d, mode, start, end)
+                if problems:
+                    fails.append({"key": "%s-chain-not-connected-to-arc" % mode, "prop": "C19", "expected": "chain from arc.start to arc.end",
+                                  "got": "error=%r, arc at index %d: %s; result %r" % (err, i, "; ".join(problems), p),
+                                  "explanation": "in a path, each arc must be replaced by a connected chain with the arc's endpoints"})
+                    return fails
+                worst = max(worst, dev)
+                if mid > 5 * _C19_BOUND[mode]:
+                    fails.append({"key": "%s-chain-off-the-arc" % mode, "prop": "C19", "expected": "chain follows the arc", "got": "midpoint mismatch %g (error=%r)" % (mid, err),
+                                  "explanation": "the chain lies on the ellipse but does not follow the arc"})
+            else:
+                if pos >= len(after) or _seg_signature(after[pos]) != before[i]:
+                    fails.append({"key": "non-arc-segment-changed-by-%s-conversion" % mode, "prop": "C19", "expected": "segment %d unchanged: %r" % (i, before[i]),
+                                  "got": "%r; result %r" % (_seg_signature(after[pos]) if pos < len(after) else None, p),
+                                  "explanation": "the rest of the path must be untouched"})
+                    return fails
+                pos += 1
+        if pos != len(after):
+            fails.append({"key": "%s-conversion-extra-segments" % mode, "prop": "C19", "expected": "%d segments consumed" % len(after), "got": pos, "explanation": "unexpected segments"})
+            return fails
+        prev = None
+        for sgm in after:
+            if type(sgm).__name__ != "Move" and prev is not None and (sgm.start is None or _xy(sgm.start) != prev):
+                fails.append({"key": "path-disconnected-after-%s-conversion" % mode, "prop": "C19", "expected": "segment starts at %r" % (prev,), "got": "%r; result %r" % (sgm, p),
+                              "explanation": "the path must stay connected"})
+                return fails
+            prev = _xy(sgm.end) if sgm.end is not None else None
+        devs.append((err, worst))
+    if devs and devs[0][1] > _C19_BOUND[mode]:
+        fails.append({"key": "%s-deviation-above-bound" % mode, "prop": "C19", "expected": "<= %g at the default subdivision" % _C19_BOUND[mode], "got": "%g" % devs[0][1],
+                      "explanation": "points of the curves stray from the arc's ellipse by more than the stated bound (path conversion, default error)"})
+    floor = max([_c19_floor(d) for d in segs if d["t"] in ("A", "E") and _arc_ellipse(d) is not None] or [1e-12])
+    for (ea, da), (eb, db) in zip(devs, devs[1:]):
+        if db > da * (1 + 1e-6) + floor:
+            fails.append({"key": "%s-deviation-grows-with-finer-subdivision" % mode, "prop": "C19", "expected": "deviation(error=%r) <= %g" % (eb, da), "got": "%g" % db,
+                          "explanation": "a finer subdivision must not increase the deviation"})
+    return fails
+
+
+def _c19_eval(mod, case):
+    if case["kind"] == "arc":
+        return _c19_arc(mod, case)
+    return _c19_path(mod, case)
+
+
+def _c19_shrink(case):
+    if case["kind"] == "path":
+        for c in _c08_shrink({"obj": "path", "segs": case["segs"]}):
+            if c.get("obj") == "path":
+                yield dict(case, segs=c["segs"])
+        arcs = [d for d in case["segs"] if d["t"] in ("A", "E")]
+        if len(arcs) == 1 and len(case["segs"]) <= 3:
+            yield {"kind": "arc", "seg": arcs[0], "mode": case["mode"]}
+
+
+def _c19_cases(tier, rng):
+    q = tier == "quick"
+    rots = (0.0, 90.0, 30.0, -45.0, 123.4, 270.0, 200.0)
+    exts = (1e-3, 0.02, 0.5, math.pi / 6, math.pi / 2, 2.0, math.pi, 4.0, TAU - 1e-3, TAU, 7.0, 2 * TAU + 1.0)
+    ratios = (1.0, 2.0, 0.5, 10.0, 100.0, 0.01, 3.7)
+    for ext in exts:
+        for sign in (1.0, -1.0):
+            for ratio in ratios if not q else rng.sample(ratios, 4):
+                r = 10.0 ** rng.uniform(-3, 5)
+                c = _rand_pt(rng) if rng.random() < 0.6 else [0.0, 0.0]
+                d = {"t": "A", "c": c, "rx": _sig(r, 4), "ry": _sig(r, 4) * ratio, "phi": rng.choice(rots),
+                     "th": rng.choice((0.0, math.pi / 2, _sig(rng.uniform(-math.pi, math.pi), 4))), "dth": ext * sign}
+                for mode in ("cubic", "quad"):
+                    yield {"kind": "arc", "seg": d, "mode": mode, "_class": "arc-centre-form"}
+    for _ in range(10 if q else 60):
+        d = _rand_seg(rng, "A", _rand_pt(rng), 10.0 ** rng.uniform(-3, 5))
+        for mode in ("cubic", "quad"):
+            yield {"kind": "arc", "seg": d, "mode": mode, "_class": "arc-endpoint-form"}
+    for mode in ("cubic", "quad"):
+        yield {"kind": "arc", "seg": {"t": "A", "c": [1.0, 2.0], "rx": 3.0, "ry": 2.0, "phi": 30.0, "th": 0.7, "dth": 0.0}, "mode": mode, "_class": "zero-extent"}
+        yield {"kind": "arc", "seg": {"t": "E", "s": [1.0, 2.0], "e": [1.0, 2.0], "rx": 3.0, "ry": 2.0, "rot": 30.0, "fa": 1, "fs": 0}, "mode": mode, "_class": "zero-extent"}
+    # arcs embedded at any position of a path
+    for i in range(30 if q else 200):
+        sc = 10.0 ** rng.uniform(-3, 5)
+        n = rng.randint(1, 4)
+        pos = rng.randrange(n)
+        origin = _rand_pt(rng) if rng.random() < 0.5 else [0.0, 0.0]
+        start = _near(rng, origin, sc)
+        segs = [{"t": "M", "p": [start]}]
+        cur = start
+        for k in range(n):
+            if k == pos or rng.random() < 0.25:
+                if rng.random() < 0.5:
+                    d = _rand_seg(rng, "A", cur, sc)
+                else:
+                    rx = _sig(sc * 10 ** rng.uniform(-1, 0.5), 4)
+                    ratio = rng.choice(ratios)
+                    th = _sig(rng.uniform(-3, 3), 3)
+                    d = {"t": "A", "c": [0.0, 0.0], "rx": rx, "ry": rx * ratio, "phi": rng.choice(rots), "th": th,
+                         "dth": rng.choice(exts) * rng.choice((-1.0, 1.0))}
+                    off = _arc_centre_point(d, th)
+                    d["c"] = [cur[0] - off[0], cur[1] - off[1]]
+                    # the segment objects are given this start explicitly; the previous segment ends exactly there
+                    new_start = list(_arc_centre_point(d, th))
+                    if segs[-1]["t"] == "M":
+                        segs[-1]["p"] = [new_start]
+                    elif segs[-1]["t"] in ("L", "Q", "C"):
+                        segs[-1]["p"][-1] = new_start
+                    elif segs[-1]["t"] == "E":
+                        segs[-1]["e"] = new_start
+                    else:
+                        continue
+            else:
+                d = _rand_seg(rng, rng.choice("LQC"), cur, sc)
+            segs.append(d)
+            cur = list(_seg_end(d))
+        if rng.random() < 0.3:
+            first = segs[0]["p"][0]
+            segs.append({"t": "Z", "p": [list(cur), list(first)]})
+        # starts of segments following an A-form arc
+        for k in range(1, len(segs)):
+            prev_end = list(_seg_end(segs[k - 1])) if segs[k - 1]["t"] != "M" else list(segs[k - 1]["p"][0])
+            if segs[k]["t"] in ("L", "Q", "C", "Z"):
+                segs[k]["p"][0] = prev_end
+            elif segs[k]["t"] == "E":
+                segs[k]["s"] = prev_end
+        if any(d["t"] == "A" and k > 0 and _dist(_seg_start(d), _seg_end(segs[k - 1]) if segs[k - 1]["t"] != "M" else segs[k - 1]["p"][0]) != 0 for k, d in enumerate(segs)):
+            continue
+        for mode in ("cubic", "quad"):
+            yield {"kind": "path", "segs": segs, "mode": mode, "errs": [None, 0.05, 0.025], "_class": "path"}
+    # zero-extent and zero-radius arcs inside a path
+    for mode in ("cubic", "quad"):
+        yield {"kind": "path", "mode": mode, "errs": [None], "_class": "path-zero-extent",
+               "segs": [{"t": "M", "p": [[0.0, 0.0]]}, {"t": "L", "p": [[0.0, 0.0], [5.0, 0.0]]},
+                        {"t": "E", "s": [5.0, 0.0], "e": [5.0, 0.0], "rx": 2.0, "ry": 1.0, "rot": 0.0, "fa": 0, "fs": 1}, {"t": "L", "p": [[5.0, 0.0], [5.0, 5.0]]}]}
+        yield {"kind": "path", "mode": mode, "errs": [None], "_class": "path-zero-radius",
+               "segs": [{"t": "M", "p": [[0.0, 0.0]]}, {"t": "L", "p": [[0.0, 0.0], [5.0, 0.0]]},
+                        {"t": "E", "s": [5.0, 0.0], "e": [9.0, 3.0], "rx": 0.0, "ry": 1.0, "rot": 0.0, "fa": 0, "fs": 1}, {"t": "L", "p": [[9.0, 3.0], [5.0, 5.0]]}]}
+
+
+_c19_replay = _make_replay(_c19_eval)
+
+
+@bounded("C19/arc_to_bezier", props=["C19"], replay=_c19_replay)
+def c19_arc_to_bezier(mod, tier, seed):
+    t0 = time.time()
+    rng = random.Random(seed)
+    col = _Collector(mod, _c19_eval, _c19_shrink)
+    classes = {}
+    samples = []
+    for case in _c19_cases(tier, rng):
+        cls = case.pop("_class", case["kind"])
+        classes[cls] = classes.get(cls, 0) + 1
+        col.run_case(case)
+        if len(samples) < 6 and col.evaluations % 37 == 1:
+            samples.append(case)
+    return _finish(
+        col, tier,
+        rule="arcs alone: centre form with extents %r rad in both directions, radii ratio in {0.01..100}, rotations incl. multiples of 90, "
+             "radius 10^[-3,5], centre 0 or 10^[-3,5]; endpoint-form arcs; zero extent; list(as_cubic_curves()) / as_quad_curves() at the "
+             "default count n and explicitly n, 2n, 4n. arcs in paths: 1-4 segments with an arc at every position (plus random extra arcs), "
+             "approximate_arcs_with_cubics/quads at the default error, 0.05 and 0.025; zero-extent and zero-radius arcs inside a path. Checks: "
+             "exact chain endpoints and joins, class of the curves, deviation (implicit equation / gradient, 17 samples per curve) relative to "
+             "max(rx, ry) <= 1e-3 (cubic) / 1e-2 (quad) at the default, non-increasing under doubling (up to a float noise floor of 16 ulp of the largest coordinate), chain follows the arc (midpoints), "
+             "non-arc segments bit-identical, path connected. distinct = every case; classes %s" % (exts_repr(), sorted(classes.items())),
+        bound="extent up to 2 turns + 1 rad; ratio up to 100; paths up to 4 drawn segments",
         distinct=col.evaluations, samples=samples, t0=t0)
+
+
+def exts_repr():
+    return "(1e-3, .02, .5, pi/6, pi/2, 2, pi, 4, 2pi-1e-3, 2pi, 7, 4pi+1)"
